@@ -27,7 +27,7 @@ SHAPES = [
     "addr-empty",
     "nul-header",
 ]
-# not in SHAPES (expensive): "big" - a body of about 400 KiB, for pushes larger than any socket buffer
+# not in SHAPES (expensive): "big" - a body of about 400 KiB, for pushes larger than any socket buffer; "huge-line" - one line of 70 kB
 
 TAME_SHAPES = ["plain", "folded", "multipart", "crlf", "dot-lines", "empty-body"]
 
@@ -150,6 +150,9 @@ def build(shape, tok):
         hdr[2] = b"Subject: nul \x00 inside " + t.encode()
         hdr[0] = b'From: "n\x00ul" <a\x00@example.org>'
         hdr.append(b"In-Reply-To: <x\x00y@example.org>")
+    elif shape == "huge-line":
+        # one body line longer than asyncio's default stream limit (64 KiB)
+        body = [b"before " + t.encode(), b"H" * 70000 + t.encode(), b".after " + t.encode()]
     elif shape == "big":
         body = [(b"%05d big body line " % i) + t.encode() + b" " + b"x" * 40 for i in range(6000)]
     else:
